@@ -533,6 +533,31 @@ def apply_post_ops(model, ops):
             elif op == "merge_transforms" and hasattr(model, "merge_transforms"):
                 model = model.merge_transforms()
                 done.append(op)
+            elif op in ("frozen_leaf_float64", "frozen_leaf_bf16"):
+                # a frozen leaf that is not a default-precision jax array (a float64 numpy checkpoint,
+                # a reduced-precision array): it must come back bit-identical like any other
+                import jax.tree_util as jtu
+                from flowjax.wrappers import NonTrainable
+
+                target = None
+                for path, node in jtu.tree_flatten_with_path(model, is_leaf=lambda n: isinstance(n, NonTrainable))[0]:
+                    if isinstance(node, NonTrainable):
+                        for p2, leaf in jtu.tree_flatten_with_path(node)[0]:
+                            if eqx.is_inexact_array(leaf) and np.asarray(leaf).size > 0:
+                                target = path + p2
+                                break
+                    if target is not None:
+                        break
+                if target is not None:
+                    old = np.asarray(_get_path(model, target))
+                    if op == "frozen_leaf_float64":
+                        new = old.astype(np.float64) * (1.0 + 1e-10) + 1e-12
+                    else:
+                        import jax.numpy as jnp
+
+                        new = jnp.asarray(old, jnp.bfloat16)
+                    model = eqx.tree_at(lambda m, p=target: _get_path(m, p), model, new)
+                    done.append(op)
         except Exception:  # noqa: BLE001 - an operation that does not apply to this model is skipped
             continue
     return model, done
